@@ -100,11 +100,12 @@ structure AddSpec (cfg : LoopCfg) (limit : Nat) (l : List Member) (n : Nat) (st 
 /-- one-step unfolding of `addLoop` in a shape convenient for case analysis -/
 theorem addLoop_cons (cfg : LoopCfg) (limit : Nat) (m : Member) (ms : List Member) (n : Nat) (st : List Member) (a : Nat) :
     addLoop cfg limit (m :: ms) (n, st, a) =
-      if (cfg.checkLimit && decide (n ≥ limit)) = true then .error .limit
+      if (!cfg.hasFirst && cfg.checkLimit && decide (n ≥ limit)) = true then .error .limit
       else if (!validAddr m.1) = true then .error .invalid
       else if whaleExceeded cfg.whale m.2 = true then .error .limit
       else if hasM m.1 st = true then
         (if cfg.rejectDup = true then .error .invalid else addLoop cfg limit ms (n, st, a))
+      else if (cfg.hasFirst && cfg.checkLimit && decide (n ≥ limit)) = true then .error .limit
       else addLoop cfg limit ms (n + 1, saveM m st, a + 1) := by
   rw [addLoop]
 
@@ -122,7 +123,7 @@ theorem addLoop_spec (cfg : LoopCfg) (limit : Nat) :
   | cons m ms ih =>
     intro n st a n' st' a' hs h
     rw [addLoop_cons] at h
-    by_cases c1 : (cfg.checkLimit && decide (n ≥ limit)) = true
+    by_cases c1 : (!cfg.hasFirst && cfg.checkLimit && decide (n ≥ limit)) = true
     · rw [if_pos c1] at h; exact absurd h (by simp)
     rw [if_neg c1] at h
     by_cases c2 : (!validAddr m.1) = true
@@ -155,6 +156,9 @@ theorem addLoop_spec (cfg : LoopCfg) (limit : Nat) :
         · rw [hx]; exact hvm
         · exact r.valid x hx
     · rw [if_neg hhas] at h
+      by_cases c5 : (cfg.hasFirst && cfg.checkLimit && decide (n ≥ limit)) = true
+      · rw [if_pos c5] at h; exact absurd h (by simp)
+      rw [if_neg c5] at h
       have hnot : m.1 ∉ keys st := (hasM_false_iff _ _).mp (by simpa using hhas)
       have r := ih (n + 1) (saveM m st) (a + 1) n' st' a' (sorted_saveM m hs) h
       have hl := length_saveM_new m st hnot
@@ -183,7 +187,10 @@ theorem addLoop_spec (cfg : LoopCfg) (limit : Nat) :
       · have := r.mono; omega
       · intro hc hn
         have hlt : n < limit := by
-          rw [hc] at c1; simp only [Bool.true_and, decide_eq_true_eq] at c1; omega
+          rw [hc] at c1 c5
+          cases hf : cfg.hasFirst
+          · rw [hf] at c1; simp only [Bool.not_false, Bool.true_and, decide_eq_true_eq] at c1; omega
+          · rw [hf] at c5; simp only [Bool.true_and, decide_eq_true_eq] at c5; omega
         exact r.cap hc (by omega)
       · intro hr
         have f := r.fresh hr
@@ -394,29 +401,6 @@ theorem mem_set_imp {α : Type} : ∀ (l : List α) (i : Nat) (x y : α), y ∈ 
       · rcases ih j x y h with h | h
         · exact Or.inl h
         · exact Or.inr (List.mem_cons_of_mem _ h)
-
-/-- `setTimes` changes windows only -/
-theorem setTimes_spec : ∀ (ss : List Stage) (ts : List (Nat × Nat)),
-    stageTotal (setTimes ss ts) = stageTotal ss ∧ (setTimes ss ts).length = ss.length ∧
-    ∀ g ∈ setTimes ss ts, ∃ g0 ∈ ss, g.members = g0.members ∧ g.count = g0.count := by
-  intro ss
-  induction ss with
-  | nil => intro ts; cases ts <;> simp [setTimes, stageTotal]
-  | cons x xs ih =>
-    intro ts
-    cases ts with
-    | nil =>
-      refine ⟨by simp [setTimes], by simp [setTimes], ?_⟩
-      intro g hg; simp only [setTimes] at hg; exact ⟨g, hg, rfl, rfl⟩
-    | cons t ts =>
-      have r := ih ts
-      simp only [setTimes, stageTotal_cons, List.length_cons]
-      refine ⟨by rw [r.1], by rw [r.2.1], ?_⟩
-      intro g hg
-      rcases List.mem_cons.mp hg with hg | hg
-      · exact ⟨x, List.mem_cons_self, by rw [hg], by rw [hg]⟩
-      · obtain ⟨g0, h0, h1⟩ := r.2.2 g hg
-        exact ⟨g0, List.mem_cons_of_mem _ h0, h1⟩
 
 /-! ## Fee arithmetic -/
 
